@@ -141,7 +141,36 @@ class C08(core.Check):
                     seen.add(n)
                     uniq.append([n, v])
             cases.append(dict(origin=origin, attrs=uniq, ops=ops))
-        self.stats.update(exhaustive_family=n_ex, random_histories=nrand, alphabet=len(alpha))
+        # the "true"/"false"-string family (spellcheck): every write path stores the converted text, every view shows that one text.
+        # Own generator state, appended after the families above so that their cases stay as they were.
+        import random as _random
+        rng2 = _random.Random('c08-boolstr-%s' % getattr(self, 'seed', 0))
+        bs_names = ['spellcheck', 'SpellCheck', 'spellcheck', 'id', 'title']
+        bs_values = ['yes', 'false', 'FALSE', 'true', '', '0', 'on words', 'v', 'False']
+        nbs = 80 if self.tier == 'quick' else 1500
+        for _ in range(nbs):
+            ops = []
+            for _ in range(rng2.randint(1, 6)):
+                r = rng2.random()
+                n = rng2.choice(bs_names)
+                v = rng2.choice(bs_values)
+                if r < 0.3:
+                    ops.append(['setAttribute', n, v])
+                elif r < 0.45:
+                    ops.append(['setitem', n, v])
+                elif r < 0.6:
+                    ops.append(['dot', 'spellcheck', rng2.choice(bs_values + [True, False])])
+                elif r < 0.7:
+                    ops.append(['setAttributes', [[n, v]]])
+                elif r < 0.8:
+                    ops.append([rng2.choice(['removeAttribute', 'delitem']), n])
+                elif r < 0.9:
+                    ops.append(['read', rng2.choice(['items', 'startTag', 'keys', 'repr'])])
+                else:
+                    ops.append(['read', rng2.choice(['has', 'get']), n])
+            attrs = [['spellcheck', rng2.choice(bs_values)]] if rng2.random() < 0.5 else []
+            cases.append(dict(origin=rng2.choice(['direct', 'parsed', 'cloned', 'unpickled']), attrs=attrs, ops=ops))
+        self.stats.update(exhaustive_family=n_ex, random_histories=nrand, alphabet=len(alpha), boolean_string_histories=nbs)
         return ac.alternate_each(cases)
 
     # ------------------------------------------------------------------ implementation
@@ -194,6 +223,13 @@ class C08(core.Check):
 
         def sset(n, v):
             n = n.lower()
+            if n == 'spellcheck':
+                # the one attribute whose HTML value is the word true or false: every write path stores that word
+                # (documented in conversions.convertToBooleanString: 'false' and '0' in any letter case, and false objects, give false)
+                if isinstance(v, str):
+                    v = 'false' if v.lower() in ('false', '0') else 'true'
+                else:
+                    v = 'true' if v else 'false'
             for e in spec:
                 if e[0] == n:
                     e[1] = v
@@ -237,7 +273,9 @@ class C08(core.Check):
                     sset(op[1], op[2])
             elif k == 'dot':
                 n, v = op[1], op[2]
-                if v is True or v is False:
+                if n == 'spellcheck':
+                    sset(n, v)
+                elif v is True or v is False:
                     if v:
                         sset(n, '')
                     else:
